@@ -23,7 +23,7 @@ def dispatch (line : String) : String :=
     let id := getD fs "id" "?"
     let body := if kind == "scale" then Swim.Drv.Scale.handle fs
       else if kind == "lockstir" then Swim.Drv.Scale.handleLockStir fs
-      else if kind == "movedead" || kind == "krand" || kind == "gossipsel" || kind == "ppsel" || kind == "relaysel" || kind == "resetsel" then Swim.Drv.Select.handle kind fs
+      else if kind == "movedead" || kind == "krand" || kind == "gossipsel" || kind == "ppsel" || kind == "relaysel" || kind == "resetsel" || kind == "boot" then Swim.Drv.Select.handle kind fs
       else if kind == "leak" && prop != "C20" then Swim.Drv.C03.handle kind fs
       else if kind == "probe" && prop == "C13" then Swim.Drv.C19.handle kind fs
       else if kind == "stall" && prop == "C20" then Swim.Drv.Ingest.handleC13 kind fs
